@@ -854,6 +854,7 @@ impl<Aux> Vm<'_, Aux> {
         instr_ptr: usize,
     ) -> (ExecutionResult<()>, usize) {
         self.runtime_data.current_program = program as *const _;
+        self.remaining_iters = self.max_instr;
         let mut ip = instr_ptr;
         let res = self._run(&mut ip);
         self.runtime_data.current_program = std::ptr::null();
